@@ -18,8 +18,8 @@ struct and dict entry are 8-aligned), re-proved by `decide` from the generated t
 
 Extension 2026-09-30 (composition with C01 / C02): `cost_agrees_with_code` - the cost model and the VALUE model
 `Code.unmarshal` of `Wire/Code.lean` (the decoder of the C01 round trip and of C02), each on its own generated tables,
-are the same decoder as far as the outcome goes; `code_fuel_adequate`, `code_result_bounded` carry the termination and
-size bounds over to the value model.
+are the same decoder as far as the outcome goes; `code_fuel_adequate`, `code_fuel_monotone`, `code_fuel_independent`,
+`code_result_bounded` carry the termination and size bounds over to the value model.
 -/
 open Txdbus Txdbus.Cost
 
@@ -119,10 +119,13 @@ theorem prefix_array_loop_never_terminates (fds : Option (List Nat)) (data : Lis
 
 open Txdbus.CostVsCode (FdsRel FdsPlain toPy RelL)
 
-/-- **The cost model and the value model are the same decoder.**  For EVERY signature string `sig` (balanced or not,
+/-- **The cost model and the value model are the same decoder as far as the OUTCOME goes** (success / exception class,
+consumed bytes, number and size of the values; what the values ARE is C01 / C02's business - `RelL` only relates two
+levels of list / hashable tags).  For EVERY signature string `sig` (balanced or not,
 known type codes or not, empty, any length - both models are defined on all of them; an unknown code is `KeyError` in
 both, an unbalanced bracket `TypeError`, a trailing `a` `RuntimeError`), every `data`, `off`, byte order, and
-descriptor lists related by `FdsRel` (both `None` or both lists; the value model's descriptors hashable scalars);
+descriptor lists related by `FdsRel` (both `None` or both lists; the value model's descriptors not containers:
+`CostValue.isFdScalar`);
 with fuel `≥ fuelFor sig data` for the cost model and `≥ codeFuel sig data off = |sig| + (|data| - off) + 1` for the value
 model (the two fuels count different things: longest call chain / nesting depth):
 * the cost model returns iff `Code.unmarshal` returns,
@@ -164,24 +167,38 @@ theorem cost_simulates_code (fc : Option (List Nat)) (fv : Code.Fds) (hfds : Fds
 
 /-- **C05's fuel bound is sufficient for the value model**: with `|sig| + (|data| - off) + 1` units of fuel (or more) -
 a bound computable from the lengths of signature and data alone - `Code.unmarshal` never runs out of fuel
-(`RecursionError`), for every signature and data; the descriptors, if any, are scalars (`FdsPlain`: no containers;
-ints in txdbus).  So the decoder of C01 / C02 / C03 can be run at this fuel without a hypothesis on the nesting depth. -/
-theorem code_fuel_adequate (fv : Code.Fds) (hfv : FdsPlain fv) (sig : List Char) (data : List UInt8) (off : Nat)
+(`RecursionError`): for every signature, data, offset, byte order and EVERY descriptor argument `fv` (no hypothesis:
+proved by a direct depth argument on `Wire/Code.lean`, `CostVsCode.one_norec`, not through the simulation).  If the
+descriptors are not containers (`FdsPlain`) it does not answer `other` (a table the model does not understand) either.
+So the decoder of C01 / C02 (`Code.unmarshal`) can be run at this fuel without a hypothesis on the nesting depth.
+(C03's codec `wireCodec fuel` fixes ONE fuel before any data exists and shares it with `Code.marshal`; to use this
+bound there the codec would have to decode with `Code.unmarshal (codeFuel sg raw 0) ..` - not done.) -/
+theorem code_fuel_adequate (fv : Code.Fds) (sig : List Char) (data : List UInt8) (off : Nat)
     (le : Bool) (fuelV : Nat) (hV : codeFuel sig data off ≤ fuelV) :
     Code.unmarshal fuelV sig data off le fv ≠ .error .recursion ∧
-    Code.unmarshal fuelV sig data off le fv ≠ .error .other :=
-  CostVsCode.code_fuel_gen fv hfv sig data off le fuelV hV
+    (FdsPlain fv → Code.unmarshal fuelV sig data off le fv ≠ .error .other) :=
+  ⟨CostVsCode.code_norec_gen fv sig data off le fuelV hV,
+   fun hfv => (CostVsCode.code_fuel_gen fv hfv sig data off le fuelV hV).2⟩
 
-/-- **The fuel hypothesis of the decode theorems of C01 / C02 / C03 can be discharged**: from `codeFuel sig data off` on the
-outcome of `Code.unmarshal` does not depend on the fuel - it equals the outcome at ANY fuel `g` that did not run out.
-So a theorem `depthAll vs ≤ g → Code.unmarshal g sig data off le fds = .ok (n, values)` (`C02_decode`, the decode half of
-`C01_roundtrip`) yields the same equation at every fuel `≥ |sig| + (|data| - off) + 1`, a bound that mentions only the
-input.  (Proved via fuel monotonicity of `Code.unmarshalOne`: `CostVsCode.one_mono`.) -/
-theorem code_fuel_independent (fv : Code.Fds) (hfv : FdsPlain fv) (sig : List Char) (data : List UInt8) (off : Nat)
+/-- **Fuel monotonicity of the value model** (a statement about `Wire/Code.lean` alone; no hypothesis on signature, data
+or descriptors): an outcome that is not `RecursionError` does not change when more fuel is given. -/
+theorem code_fuel_monotone (fv : Code.Fds) (sig : List Char) (data : List UInt8) (off : Nat) (le : Bool) (g k : Nat)
+    (hg : Code.unmarshal g sig data off le fv ≠ .error .recursion) :
+    Code.unmarshal (g + k) sig data off le fv = Code.unmarshal g sig data off le fv :=
+  CostVsCode.unmarshal_mono_add sig data off le fv g k hg
+
+/-- **The fuel hypothesis of the DECODE theorems of C01 / C02 can be discharged**: from `codeFuel sig data off` on the
+outcome of `Code.unmarshal` (value included) does not depend on the fuel - it equals the outcome at ANY fuel `g` that did
+not run out; for every descriptor argument.  So a theorem `depthAll vs ≤ g → Code.unmarshal g sig data off le fds =
+.ok (n, values)` (`C02_decode`; the decode CONJUNCT of `C01_roundtrip` only - its `Code.marshal` conjunct uses the same
+`fuel` and is not covered) yields the same equation at every fuel `≥ |sig| + (|data| - off) + 1`, a bound that mentions
+only the input.  (`code_fuel_monotone` + `code_fuel_adequate`.)  The corollaries themselves live with C01 / C02
+(`Proofs/Wire/FuelFree.lean`), not here: importing their proof closure into C05 is avoided. -/
+theorem code_fuel_independent (fv : Code.Fds) (sig : List Char) (data : List UInt8) (off : Nat)
     (le : Bool) (g : Nat) (hg : Code.unmarshal g sig data off le fv ≠ .error .recursion)
     (fuel : Nat) (hV : codeFuel sig data off ≤ fuel) :
     Code.unmarshal fuel sig data off le fv = Code.unmarshal g sig data off le fv :=
-  CostVsCode.code_fuel_indep_gen fv hfv sig data off le g hg fuel hV
+  CostVsCode.code_fuel_indep_free fv sig data off le g hg fuel hV
 
 /-- **`result_size_bounded` for the value model**: whatever `Code.unmarshal` returns at that fuel, the Python objects in
 it (`nodesList`: every list, dict, key, value, scalar) number at most `stepBound sig data off =
@@ -207,6 +224,26 @@ example : (unmarshal genTables true (some []) (fuelFor ['(', 'a', 'y', ')'] [2, 
         (some []) with
      | .ok (n, vs) => n == 6 && vs.length == 1 && nodesList vs == 4
      | .error _ => false) = true := by decide +kernel
+
+/-- `cost_simulates_code` instantiated: cost fuel 7 is adequate for `(ay)` (far below `fuelFor = 22`), the run reports
+depth 3, value-model fuel 4 = depth + 1: the value model returns, 6 bytes. -/
+example : ∃ vs, Code.unmarshal 4 ['(', 'a', 'y', ')'] [2, 0, 0, 0, 7, 9] 0 true (some []) = .ok (6, vs) := by
+  have h := (cost_simulates_code (some []) (some []) ⟨rfl, fun l h v hv => by cases h; simp at hv⟩
+    ['(', 'a', 'y', ')'] [2, 0, 0, 0, 7, 9] 0 true 7 4 (by decide +kernel) (by decide +kernel)).1 (by decide +kernel)
+  obtain ⟨vs, hc, _⟩ := h
+  have ho : (unmarshal genTables true (some []) 7 ['(', 'a', 'y', ')'] [2, 0, 0, 0, 7, 9] 0 true).off = 6 := by
+    decide +kernel
+  rw [ho] at hc
+  exact ⟨vs, hc⟩
+
+/-- ... and cost fuel 6 is NOT adequate (the hypothesis `st ≠ outOfFuel` of `cost_simulates_code` is not vacuous). -/
+example : (unmarshal genTables true (some []) 6 ['(', 'a', 'y', ')'] [2, 0, 0, 0, 7, 9] 0 true).st = .outOfFuel := by
+  decide +kernel
+
+/-- a container as descriptor: outside `FdsPlain`, and `code_fuel_adequate`'s first conjunct still applies. -/
+example : ¬ FdsPlain (some [.list []]) := fun h => by
+  have := h _ rfl (.list []) (by simp)
+  simp [CostValue.isFdScalar] at this
 
 /-- `code_fuel_independent` applies: fuel 3 is enough for `(ay)`, far below `codeFuel = 11`. -/
 example : (match Code.unmarshal 3 ['(', 'a', 'y', ')'] [2, 0, 0, 0, 7, 9] 0 true (some []) with
@@ -251,5 +288,6 @@ end Txdbus.C05
 #print axioms Txdbus.C05.cost_agrees_with_code
 #print axioms Txdbus.C05.cost_simulates_code
 #print axioms Txdbus.C05.code_fuel_adequate
+#print axioms Txdbus.C05.code_fuel_monotone
 #print axioms Txdbus.C05.code_fuel_independent
 #print axioms Txdbus.C05.code_result_bounded
